@@ -30,6 +30,17 @@ def crafted_package():
     vi = T("vec", "Vi", e=prim("int64"))
     d.append(("En", "En: !enum\n  values:\n    - p\n    - q"))
     en = T("enum", "En", base="int32", name="En", symbols=[("p", 0), ("q", 1)], is_flags=False)
+    # keys and cases reached through aliases: the JSON kind must be that of the underlying type
+    d.append(("Ks", "Ks: string"))
+    d.append(("Ki", "Ki: uint16"))
+    d.append(("Am", "Am: Ks->int32"))
+    am = T("map", "Am", k=prim("string"), e=prim("int32"))
+    d.append(("Aim", "Aim: Ki->Ks"))
+    aim = T("map", "Aim", k=prim("uint16"), e=prim("string"))
+    d.append(("Fl", "Fl: !flags\n  base: uint16\n  values:\n    fa: 1\n    fb: 2\n    fab: 3\n    fc: 8"))
+    fl = T("enum", "Fl", base="uint16", name="Fl", symbols=[("fa", 1), ("fb", 2), ("fab", 3), ("fc", 8)], is_flags=True)
+    d.append(("Rka", "Rka: Rk"))
+    rka = T("rec", "Rka", name="Rk", fields=rk.fields)
 
     def U(cases, has_null=False):
         return T("union", "[" + ", ".join((["null"] if has_null else []) + [c.spell for c in cases]) + "]", has_null=has_null,
@@ -39,7 +50,12 @@ def crafted_package():
              ("uc", U([prim("bool"), vi, en, im]), True),                            # bool, array, string|number, array
              ("ud", U([prim("string"), prim("datetime"), prim("int32")], has_null=True), True),
              ("ue", U([sm, im, vi]), False),
-             ("uf", rk, True)]
+             ("uf", rk, True),
+             ("ug", U([rka, am]), True),                                             # object, object (key type is an alias of string)
+             ("uh", U([vi, aim, prim("string")]), True),                             # array, array (key type is an alias of uint16), string
+             ("ui", U([am, aim]), True),
+             ("uj", U([fl, prim("int32"), prim("string")]), True),                   # flags are arrays of symbols OR a number
+             ("uk", U([fl, prim("string")], has_null=True), True)]                                             # object, array
     pkg.protocols.append(("Pu", steps))
     return pkg
 
